@@ -219,3 +219,60 @@ def lift_merge(beh, idx):
             {"op": "same_obs", "in": [9, 10]}]
     return {"name": "E2-merge-%d" % idx, "norm": "code", "universe": ["_id", "a", "b", "c", "nosuchfield"],
             "batches": batches, "ops": ops, "tags": ["e2merge"]}
+
+
+def lift_api(beh, idx):
+    """GenAPI history -> scenario; a digest of every live segment and bitmap follows every operation (C15)."""
+    cat = beh["catalogue"]
+    batches, bmap = [], {}
+    ops = []
+    nfile = 0
+    modes = [1, 2, 3, 0, 1024]
+    for k, h in enumerate(beh["hist"]):
+        o = h["op"]
+        if o == "def_bm":
+            ops.append({"op": "def_bm", "bm": h["bm"], "docs": h["docs"]})
+        elif o == "build":
+            if h["batch"] not in bmap:
+                bmap[h["batch"]] = len(batches)
+                batches.append(cat[h["batch"] - 1])
+            ops.append({"op": "build", "seg": h["seg"], "batch": bmap[h["batch"]], "mode": modes[(idx + k) % len(modes)]})
+        elif o == "persist_load":
+            nfile += 1
+            ops += [{"op": "persist", "seg": h["from"], "file": nfile},
+                    {"op": "load", "file": nfile, "seg": h["seg"], "backing": "file" if (idx + k) % 2 else "mem"}]
+        elif o == "merge":
+            nfile += 1
+            drops = [{"kind": "bm", "bm": d} if d else {"kind": "nil"} for d in h["drops"]]
+            ops += [{"op": "merge", "file": nfile, "in": h["ins"], "drops": drops, "mode": modes[(idx + k) % len(modes)], "buf": 64},
+                    {"op": "load", "file": nfile, "seg": h["seg"], "backing": "mem"}]
+        elif o == "pl_open":
+            op = {"op": "pl_open", "seg": h["seg"], "field": h["field"], "term": h["term"], "pl": 100 + h["pl"]}
+            if h["ex"]:
+                op["except"] = {"kind": "bm", "bm": h["ex"]}
+            if h["prealloc"]:
+                op["prealloc"] = 100 + h["prealloc"]
+            ops.append(op)
+        elif o == "it_open":
+            op = {"op": "it_open", "pl": 100 + h["pl"], "it": 200 + h["it"], "freq": True, "norm": True, "locs": True}
+            if h["prealloc"]:
+                op["prealloc"] = 200 + h["prealloc"]
+            ops.append(op)
+        elif o == "it_next":
+            ops.append({"op": "it_next", "it": 200 + h["it"]})
+        elif o == "it_adv":
+            ops.append({"op": "it_adv", "it": 200 + h["it"], "d": h["d"]})
+        elif o == "observe":
+            ops.append({"op": "observe", "seg": h["seg"], "level": "light"})
+        elif o == "stored":
+            ops += [{"op": "stored", "seg": h["seg"], "n": 0}, {"op": "stored", "seg": h["seg"], "n": 1}]
+        elif o == "match":
+            ops.append({"op": "match", "seg": h["seg"], "pairs": [{"field": "a", "term": [120]}, {"field": "_id", "term": [48]}]})
+        ops.append({"op": "digest"})
+    tags = ["api"]
+    if any(h["op"] == "merge" and any(h["drops"]) for h in beh["hist"]):
+        tags.append("api_merge_with_bitmap")
+    if any(h["op"] in ("pl_open", "it_open") and h.get("prealloc") for h in beh["hist"]):
+        tags.append("api_prealloc")
+    return {"name": "E2-api-%d" % idx, "norm": "code", "universe": ["_id", "a", "b", "c", "zz"],
+            "batches": batches, "ops": ops, "tags": tags}
